@@ -33,6 +33,7 @@ type Engine struct {
 	actorChecked  bool // effects.go
 	actorBad      []string
 	recCalls      map[string]bool // effects.go: functions whose calls are recorded for lastcall()
+	projLits      map[string]bool // captproj.go (x-c17): literals whose captured variables are projected
 }
 
 func relPkg(path string) string {
